@@ -428,6 +428,8 @@ func (self *visitorUserNode) OnObjectBegin(capacity int) error {
 			if err = self.push(true, false, false, fieldDesc, curNodeLenPos); err != nil {
 				return err
 			}
+			// the field is on the stack now: an empty object must not be mistaken for a finished scalar value
+			self.globalFieldDesc = nil
 		} else {
 			if fieldDesc.Message() == nil {
 				return newError(meta.ErrDismatchType, "unexpected object value: the field is neither a message nor a map", nil)
@@ -440,6 +442,7 @@ func (self *visitorUserNode) OnObjectBegin(capacity int) error {
 			if err = self.push(false, true, false, fieldDesc, curNodeLenPos); err != nil {
 				return err
 			}
+			self.globalFieldDesc = nil
 		}
 	}
 	return err
@@ -594,6 +597,8 @@ func (self *visitorUserNode) OnArrayBegin(capacity int) error {
 		if err = self.push(false, false, true, self.globalFieldDesc, curNodeLenPos); err != nil {
 			return err
 		}
+		// the field is on the stack now: an empty array must not be mistaken for a finished scalar value
+		self.globalFieldDesc = nil
 	}
 	return err
 }
